@@ -440,6 +440,9 @@ func (b *builder) statusVars(withCharset *[3]int32) []byte {
 	}
 	if s.Chance(1, 3) {
 		tz := "SYSTEM"
+		if s.Chance(1, 8) {
+			tz = strings.Repeat("Z", 1+s.N(255))
+		}
 		v = append(v, 5, byte(len(tz)))
 		v = append(v, tz...)
 	}
@@ -454,6 +457,27 @@ func (b *builder) statusVars(withCharset *[3]int32) []byte {
 	if s.Chance(1, 6) {
 		v = append(v, 9)
 		v = le64(v, s.U64())
+	}
+	if s.Chance(1, 12) {
+		// Q_INVOKER: user and host, each with a one-byte length
+		u, hst := strings.Repeat("u", s.N(33)), strings.Repeat("h", s.N(256))
+		v = append(v, 11, byte(len(u)))
+		v = append(v, u...)
+		v = append(v, byte(len(hst)))
+		v = append(v, hst...)
+	}
+	if s.Chance(1, 12) {
+		// Q_UPDATED_DB_NAMES: count, then NUL-terminated names (a cross-schema statement)
+		n := 1 + s.N(10)
+		v = append(v, 12, byte(n))
+		for i := 0; i < n; i++ {
+			v = append(v, strings.Repeat("d", 1+s.N(64))...)
+			v = append(v, 0)
+		}
+	}
+	if s.Chance(1, 12) {
+		v = append(v, 13)
+		v = leN(v, uint64(s.N(1000000)), 3)
 	}
 	return v
 }
@@ -589,7 +613,13 @@ func (b *builder) rowsStatement(ts uint32, tables []*TableDef) []ExpEvent {
 		// an ignorable / unknown event may sit anywhere, also between a table map
 		// and its rows event or between two rows events of one statement
 		if b.o.IgnorableGap > 0 && !b.forceRows && s.Chance(1, 12) {
-			switch s.N(3) {
+			switch s.N(6) {
+			case 3:
+				b.add(evGTID, ts, 0, append([]byte{1}, s.Bytes(41)...), "GTID(mid-statement)")
+			case 4:
+				b.add(evAnonymousGTID, ts, 0, append([]byte{1}, s.Bytes(41)...), "ANONYMOUS_GTID(mid-statement)")
+			case 5:
+				b.add(evPreviousGTIDs, ts, 0, le64(nil, 0), "PREVIOUS_GTIDS(mid-statement)")
 			case 0:
 				b.add(evIgnorable, ts, 0x80, s.Bytes(s.N(12)), "IGNORABLE(mid-statement)")
 			case 1:
@@ -794,7 +824,14 @@ func (b *builder) addUnit(kind unitKind) {
 		exps := b.txBody(ts)
 		ts = h.ts(s)
 		if b.o.IgnorableGap > 0 && s.Chance(1, 10) {
-			b.add(evIgnorable, ts, 0x80, s.Bytes(s.N(8)), "IGNORABLE(before-commit)")
+			switch s.N(3) {
+			case 0:
+				b.add(evIgnorable, ts, 0x80, s.Bytes(s.N(8)), "IGNORABLE(before-commit)")
+			case 1:
+				b.add(evGTID, ts, 0, append([]byte{1}, s.Bytes(41)...), "GTID(before-commit)")
+			case 2:
+				b.add(evAnonymousGTID, ts, 0, append([]byte{1}, s.Bytes(41)...), "ANONYMOUS_GTID(before-commit)")
+			}
 		}
 		var commit *Event
 		switch kind {
